@@ -103,6 +103,16 @@ exec_c20(const vcase *vc)
 				    !strcmp(on, "pipeclose") || !strcmp(on, "http"); // (http: the in-process server may be the one that ran out of memory and dropped the connection)
 				// (round 7, ws://: when the listener side of an in-process WebSocket handshake runs out of memory it answers the upgrade with an
 				//  HTTP error status, which the dialing side reports as NNG_EPROTO - the loss of that one connection as the peer sees it)
+				// (the program's own "cancel <aio> 1" aborts that aio with NNG_EINTERNAL: when the injected fault cost the message
+				//  the operation was waiting for, it is still pending at that point and ends with the harness's own code)
+				bool own_abort = false;
+				if (!strcmp(on, "wait") && M.rcs[i] == NNG_EINTERNAL)
+					for (int q = 2; q < vc->nops; q++)
+						own_abort = own_abort || (!strcmp(vc->ops[q].name, "cancel") && vop_arg(&vc->ops[q], 1, 0) != 0);
+				if (own_abort) {
+					vr_tag("pending_op_ended_by_programs_own_abort");
+					break;
+				}
 				bool peer_refused = !strcmp(on, "dial") && M.rcs[i] == NNG_EPROTO;
 				if (peer_refused)
 					vr_tag("dial_refused_by_faulted_listener");
